@@ -79,10 +79,43 @@ def check_registration(ctx):
 def _general_return(red):
     """The return of the reducer for a proper annotation: (callable, (args...))."""
     rets = [x for x in walk_scope(red.node) if isinstance(x, ast.Return) and isinstance(x.value, ast.Tuple) and len(x.value.elts) == 2]
-    gen = [x for x in rets if any(isinstance(n, ast.Attribute) and n.attr == "__getitem__" for n in ast.walk(x.value.elts[0]))]
+    gen = [x for x in rets if any(isinstance(n, ast.Attribute) and isinstance(n.value, ast.Name) and n.value.id == red.params[0] for n in ast.walk(x.value))
+           or any(isinstance(n, ast.Name) and n.id not in (red.params[0],) and c05._assignments_to(red, n.id) for n in ast.walk(x.value.elts[1]))]
+    gen = [x for x in gen if not (isinstance(x.value.elts[1], ast.Tuple) and not x.value.elts[1].elts)]
     if len(gen) != 1:
-        raise AnalysisError("C20: the reducer's general return `(<category>.__getitem__, (<item>,))` not recognised")
+        raise AnalysisError("C20: the reducer's general return `(<callable>, (<args>,))` not recognised")
     return gen[0]
+
+
+def _resolve_local(red, e, depth=0):
+    """Follow single-assignment locals of the reducer; returns the list of possible source
+    expressions (all definitions of the name)."""
+    if isinstance(e, ast.Name) and e.id not in red.params and depth < 4:
+        defs = c05._assignments_to(red, e.id)
+        out = []
+        for _, v, idx in defs:
+            if idx is None:
+                out += _resolve_local(red, v, depth + 1)
+        return out or [e]
+    return [e]
+
+
+def reducer_plan(ctx, red):
+    """(category_exprs, item_exprs, loader FuncInfo|None) of the general return."""
+    m = ctx.model
+    gen = _general_return(red)
+    fn_e, args_e = gen.value.elts
+    x = red.params[0]
+    if norm(fn_e) == f"{x}.dtype.__getitem__":
+        item = args_e.elts[0] if isinstance(args_e, ast.Tuple) and len(args_e.elts) == 1 else None
+        need(item is not None, "C20: reducer arguments not of the form ((...),)")
+        return gen, [ast.parse(f"{x}.dtype", mode="eval").body], [item], None
+    loader = m.resolve_expr_static(red, fn_e)
+    if loader is not None and hasattr(loader, "node") and isinstance(args_e, ast.Tuple) and len(args_e.elts) == 2:
+        cats = _resolve_local(red, args_e.elts[0])
+        items = _resolve_local(red, args_e.elts[1])
+        return gen, cats, items, loader
+    raise AnalysisError(f"C20: reducer callable `{norm(fn_e)}` not recognised")
 
 
 def _sentinels(mod) -> set:
@@ -164,12 +197,21 @@ def check_determinacy(ctx):
     red = m.func("_array_types._pickle_array_annotation")
     mac = m.func("_array_types._make_array_cached")
     ma = m.func("_array_types._make_array")
-    gen = _general_return(red)
-    fn_e, args_e = gen.value.elts
     x = red.params[0]
-    # the callable: x.dtype.__getitem__
-    if norm(fn_e) != f"{x}.dtype.__getitem__":
-        raise AnalysisError(f"C20.3: reducer callable `{norm(fn_e)}` not recognised")
+    gen, cats, items, loader = reducer_plan(ctx, red)
+    # what goes on the wire for the category must be the class object itself (pickled by
+    # reference: module + qualname), never a bare name
+    for c_ in cats:
+        if any(isinstance(n, ast.Attribute) and n.attr in ("__name__", "__qualname__") for n in ast.walk(c_)):
+            ctx.bad("C20.3", red, gen, f"the dtype category is put on the wire as a bare name (`{norm(c_)}`) and looked up again by that name: an importable user category "
+                    "that happens to be called like another one (e.g. a narrower user `Float`) comes back as the other class", construct=f"category on the wire: {norm(c_)}")
+        elif norm(c_) != f"{x}.dtype":
+            ctx.bad("C20.3", red, gen, f"the category replayed by the reducer is `{norm(c_)}`, not the annotation's own category ({x}.dtype)")
+    if loader is not None:
+        ctx.saw(loader)
+        _check_loader(ctx, red, loader)
+    need(len(items) == 1, "C20.3: the replayed item has several definitions")
+    item = items[0]
     dict_call = [c for c in ast.walk(ma.node) if isinstance(c, ast.Call) and isinstance(c.func, ast.Name) and c.func.id == "dict" and c.keywords][0]
     fields = {k.arg: k.value for k in dict_call.keywords}
     ctx.counters["class_dict_fields"] = len(fields)
@@ -177,8 +219,6 @@ def check_determinacy(ctx):
     # `dtype` field is the category parameter
     if not (isinstance(fields.get("dtype"), ast.Name) and fields["dtype"].id == ma.params[2]):
         ctx.bad("C20.3", ma, dict_call, "the `dtype` field of an annotation is not the category class it was built from")
-    item = args_e.elts[0] if isinstance(args_e, ast.Tuple) and len(args_e.elts) == 1 else None
-    need(item is not None, "C20.3: reducer arguments not of the form ((...),)")
     # shape (A): replay of the constructor's own arguments
     if isinstance(item, ast.Attribute) and isinstance(item.value, ast.Name) and item.value.id == x:
         fld = item.attr
@@ -234,6 +274,33 @@ def check_determinacy(ctx):
                         construct=f"{norm(gen.value)}: `{var}` not determined by the replayed fields")
         return
     raise AnalysisError(f"C20.3: reducer item `{norm(item)}` not recognised")
+
+
+def _check_loader(ctx, red, loader):
+    """A custom unpickling function must be `category[item]` and nothing else: in particular it
+    may not consult or update a process-wide table (the result would depend on what was loaded
+    or defined before)."""
+    from ..effects import Effects
+    from ..roles import roles_for
+
+    m = ctx.model
+    eff = Effects(m, roles_for(m))
+    p0, p1 = loader.params[0], loader.params[1]
+    subs = [n for n in ast.walk(loader.node) if isinstance(n, ast.Subscript) and isinstance(n.ctx, ast.Load) and norm(n.value) == p0 and norm(n.slice) == p1]
+    if not subs:
+        ctx.bad("C20.3", loader, loader.node, f"the unpickling function does not rebuild the annotation as `{p0}[{p1}]`", construct=f"{loader.name}: no {p0}[{p1}]")
+    for s_ in eff.stores(loader):
+        if s_.kind in ("modvar", "class", "global", "ext"):
+            ctx.bad("C20.3", loader, s_.node, f"unpickling writes the process-wide table `{s_.root_name}` ({s_.how}): what an annotation comes back as depends on which "
+                    "annotations were loaded before it (and loading changes what later loads return)")
+    for n in ast.walk(loader.node):
+        if isinstance(n, ast.Name) and isinstance(n.ctx, ast.Load):
+            b = m.resolve_name(loader, n.id)
+            if b.kind == "modvar":
+                vals = b.target[0].assigns.get(b.target[1], [])
+                if any(isinstance(v, (ast.Dict, ast.List, ast.Set)) or (isinstance(v, ast.Call) and norm(v.func).split(".")[-1] in ("dict", "WeakValueDictionary", "WeakKeyDictionary", "OrderedDict", "defaultdict", "list", "set")) for v in vals):
+                    ctx.bad("C20.3", loader, n, f"unpickling resolves through the mutable process-wide table `{n.id}`: the result depends on what was registered or loaded before",
+                            construct=f"{loader.name} reads module-level table {n.id}")
 
 
 def _reassigned_before(f, name, node) -> bool:
